@@ -63,8 +63,11 @@ Definition reason_of (kw : kws) : N * N :=
   | None => (0, 0)
   end.
 
-Definition tell_c (ls : list N) (m o a : N) (fl : kws) : list nev := map (fun l => NCirc l m o a fl) ls.
-Definition tell_s (ls : list N) (m o a : N) (fl : kws) : list nev := map (fun l => NStream l m o a fl) ls.
+(* every listener is called, whatever the earlier ones did (Circuit._notify / Stream._notify guard each call);
+   TorState itself is the first listener, so the others see its book-keeping done (carg: what a listener that
+   looks the object up from inside the callback sees) *)
+Definition tell_c (ls : list N) (m o a : N) (fl : kws) : list nev := map (fun l => NCirc l m o (carg l m a) fl) ls.
+Definition tell_s (ls : list N) (m o a : N) (fl : kws) : list nev := map (fun l => NStream l m o (carg l m a) fl) ls.
 
 (* ---- a CIRC event ---- *)
 Definition x_circ (s : xstate) (id : N) (st : cstatus) (path : list hop) (kw : kws) : option (xstate * list nev) :=
@@ -130,7 +133,7 @@ Definition x_stream (s : xstate) (id : N) (st : sstatus) (cid host port : N) (kw
       let fl := both_cases kw in
       let o_state :=
         match st with
-        | SNew => tell_s ls MS_NEW o 0 []
+        | SNew | SNewResolve => tell_s ls MS_NEW o 0 []      (* `if self.state in ('NEW', 'NEWRESOLVE'): stream_new` *)
         | SSucceeded => tell_s ls MS_SUCCEEDED o 0 []
         | SDetached => tell_s ls MS_DETACH o 0 fl
         | SClosed => (match tfind (sclosing s) o with Some items => run_items (WOkS o) items | None => [] end)
